@@ -544,7 +544,8 @@ example : addTableEntry .keep [120] [([108, 49], 7)] [76, 49] = .useExisting 7 :
 #guard addTableEntry .xrefPrefix [120] [([108, 49], 7)] [76, 49] = .add [120, 36, 48, 36, 76, 49]
 #guard addTableEntry .numPrefix [120] [([108, 49], 7), ([36, 48, 36, 108, 49], 8)] [76, 49] = .add [36, 49, 36, 76, 49]
 #guard addLayerEntry .xrefPrefix [120] [([48], 16)] [48] = .useExisting 16
-#guard addLayerEntry .xrefPrefix [120] [([48], 16)] [68, 101, 102, 112, 111, 105, 110, 116, 115] = .add [120, 36, 48, 36, 68, 101, 102, 112, 111, 105, 110, 116, 115]
+#guard addLayerEntry .xrefPrefix [120] [([48], 16)] [68, 101, 102, 112, 111, 105, 110, 116, 115] =
+  .add (if XrefTables.specialLayerAddedUnchanged then [68, 101, 102, 112, 111, 105, 110, 116, 115] else [120, 36, 48, 36, 68, 101, 102, 112, 111, 105, 110, 116, 115])
 
 /-! ## §5 transfer on the abstract handle graph -/
 
